@@ -12,6 +12,7 @@
 -/
 import Rl.RawMode
 import Rl.Lemmas.RawMode
+import Rl.Lemmas.RawModeSession
 open Rl.RawMode
 
 /-- the guard's mode is always the one `enableRaw` built from the settings found -/
@@ -181,3 +182,258 @@ example :
     r.1 = .unwind ∧ r.2.termios = t.termios ∧
       switches r.2.log = [.pasteOn, .pasteOff, .pasteOn, .pasteOff, .pasteOn, .pasteOff] := by
   decide
+
+/-! ## Gap filling (package T): the guard from any state, nesting, arming, whole sessions -/
+
+/-- **The guard restores from ANY intermediate state.**  Let `m` be the mode a successful
+    `enable_raw_mode` returned on a terminal with settings `t.termios` (any settings: every flag
+    word, `c_line`, every `c_cc` slot, both speeds).  Then `disable_raw_mode(m)` — the body of the
+    guard's drop — run on *any* connected terminal state `t'` whatsoever (whatever the read, a helper,
+    a suspended shell or a nested read did to the settings, the log and the raw flag in between) and
+    whether or not the paste-off write succeeds (`w`), leaves exactly `t.termios` in force.
+    Hypotheses: the enable succeeded; `t'` is still connected. -/
+theorem C16_guard_restores_from_any_state (cfg : Cfg) (t t1 : Term) (m : Mode)
+    (he : enableRaw cfg t = (some m, t1)) (w : Bool) (t' : Term) (hc' : t'.connected = true) :
+    (disableRaw m w t').2.termios = t.termios ∧ (disableRaw m w t').2.connected = true := by
+  cases hc : t.connected
+  · rw [enableRaw_disconnected cfg t hc] at he; simp at he
+  · rw [enableRaw_eq cfg t hc] at he
+    injection he with hm _
+    injection hm with hm
+    subst hm
+    exact disableRaw_termios _ w t' hc'
+
+/-- non-vacuity: the state in between has unrelated settings and a cleared raw flag -/
+example :
+    let t := Term.fresh { iflag := 0x700, oflag := 0x45, cflag := 0xbf, lflag := 0x8a3f, line := 3,
+                          cc := [3, 28, 127, 21, 4, 9, 7, 0], ispeed := 13, ospeed := 15 }
+    let r := enableRaw { enableSignals := true, bracketedPaste := true } t
+    let t' : Term := { r.2 with termios := { t.termios with iflag := 0, cc := [] }, rawFlag := false }
+    ∃ m, r.1 = some m ∧ (disableRaw m false t').2.termios = t.termios := by
+  decide
+
+/-- **Paste-off is written iff paste-on was written**, at the level of one enable/disable pair and
+    for every outcome of the paste-on write: `X` = what the enable wrote, `Y` = what the matching
+    disable (explicit, by the guard, or during a suspend) writes on any connected state `t'` when
+    its own write goes through.  In particular a paste-on write that failed (`cfg.writeOk = false`)
+    or was not configured is never followed by a stray paste-off, and a paste-on that was written is
+    always answered. -/
+theorem C16_paste_off_iff_on (cfg : Cfg) (t t1 : Term) (m : Mode)
+    (he : enableRaw cfg t = (some m, t1)) (t' : Term) (hc' : t'.connected = true) :
+    ∃ X Y, t1.log = t.log ++ X ∧ (disableRaw m true t').2.log = t'.log ++ Y ∧
+      (Eff.pasteOff ∈ Y ↔ Eff.pasteOn ∈ X) ∧
+      (Eff.pasteOn ∈ X ↔ (cfg.bracketedPaste = true ∧ cfg.writeOk = true)) := by
+  cases hc : t.connected
+  · rw [enableRaw_disconnected cfg t hc] at he; simp at he
+  · rw [enableRaw_eq cfg t hc] at he
+    injection he with hm ht1
+    injection hm with hm
+    subst hm ht1
+    rw [disableRaw_eq _ true t' hc' (fun _ => rfl)]
+    refine ⟨_, _, rfl, rfl, ?_, ?_⟩
+    · cases hp : cfg.paste <;> simp [modeOf, hp]
+    · cases hb : cfg.bracketedPaste <;> cases hw : cfg.writeOk <;> simp [Cfg.paste, hb, hw]
+
+/-- **No unguarded change**: for every terminal state (connected or not), configuration and script,
+    either `enable_raw_mode` returned `Err` and the read left the terminal *completely* untouched
+    (same settings, nothing written, flag unchanged) — there is nothing to restore —, or the guard was
+    armed on the very state `enable_raw_mode` produced and the read's final state is the guard's drop
+    applied to the end of `readline_edit`.  I.e. nothing that can fail lies between the first change
+    to the terminal and the arming of the guard.  No hypotheses. -/
+theorem C16_guard_armed_or_untouched (cfg : Cfg) (sc : Script) (t : Term) :
+    readlineWith cfg sc t = (.ret .io, t) ∨
+    ∃ mode t1, enableRaw cfg t = (some mode, t1) ∧
+      (readlineWith cfg sc t).2 = dropGuard cfg mode (readlineEdit cfg mode sc.suspends sc.exit t1).2 := by
+  cases hc : t.connected
+  · left
+    unfold readlineWith
+    rw [enableRaw_disconnected cfg t hc]
+  · right
+    exact C16_every_exit cfg sc t hc
+
+/-- a failing `enable_raw_mode` has done nothing to the terminal (all fields of the state equal) -/
+theorem C16_enable_error_is_clean (cfg : Cfg) (t t1 : Term) (h : enableRaw cfg t = (none, t1)) :
+    t1 = t :=
+  enableRaw_none cfg t t1 h
+
+/-- **Nested / repeated enables, dropped innermost first.**  A second `enable_raw_mode` issued while
+    the terminal is already raw (from state `t1'`, e.g. the state the first enable left, possibly
+    with another configuration) saves the *raw* settings; dropping the inner mode on any connected
+    state gives those back, and dropping the outer mode afterwards gives the original settings back.
+    The order matters, see `C16_nested_wrong_order`. -/
+theorem C16_nested_lifo (cfg1 cfg2 : Cfg) (t t1 t1' t2 : Term) (m1 m2 : Mode)
+    (h1 : enableRaw cfg1 t = (some m1, t1)) (h2 : enableRaw cfg2 t1' = (some m2, t2))
+    (w1 w2 : Bool) (mid : Term) (hc : mid.connected = true) :
+    (disableRaw m2 w2 mid).2.termios = t1'.termios ∧
+    (disableRaw m1 w1 (disableRaw m2 w2 mid).2).2.termios = t.termios := by
+  have a := C16_guard_restores_from_any_state cfg2 t1' t2 m2 h2 w2 mid hc
+  exact ⟨a.1, (C16_guard_restores_from_any_state cfg1 t t1 m1 h1 w1 _ a.2).1⟩
+
+/-- …and dropping the OUTER mode first leaves the terminal raw: the modes are not a counter.  The
+    crate itself never does this (the mode of the re-enable after a suspend is discarded, the guard
+    keeps the outer one — `C16_restore`); an application nesting two reads on one terminal and
+    releasing them out of order would. -/
+theorem C16_nested_wrong_order :
+    ∃ (cfg : Cfg) (t t1 t2 : Term) (m1 m2 : Mode),
+      enableRaw cfg t = (some m1, t1) ∧ enableRaw cfg t1 = (some m2, t2) ∧
+      (disableRaw m2 true (disableRaw m1 true t2).2).2.termios ≠ t.termios := by
+  refine ⟨{ enableSignals := false, bracketedPaste := false },
+    Term.fresh { iflag := 0x500, oflag := 0x5, cflag := 0xbf, lflag := 0x8a3b, line := 0,
+                 cc := [3, 28, 127, 21, 4, 0, 1, 0], ispeed := 15, ospeed := 15 },
+    _, _, _, _, rfl, rfl, ?_⟩
+  decide
+
+/-- the exclusion of the hang-up in `C16_restore` is necessary: after a hang-up the model's settings
+    stay raw and the raw flag stays set (there is no terminal left to restore; C17) -/
+theorem C16_hangup_is_excluded_for_a_reason :
+    ∃ (cfg : Cfg) (t : Term), t.connected = true ∧
+      (readlineWith cfg { suspends := [], exit := .hangup } t).2.termios ≠ t.termios ∧
+      (readlineWith cfg { suspends := [], exit := .hangup } t).2.rawFlag = true := by
+  refine ⟨{ enableSignals := false, bracketedPaste := true },
+    Term.fresh { iflag := 0x500, oflag := 0x5, cflag := 0xbf, lflag := 0x8a3b, line := 0,
+                 cc := [3, 28, 127, 21, 4, 0, 1, 0], ispeed := 15, ospeed := 15 }, rfl, ?_, ?_⟩ <;> decide
+
+/-- **Whole sessions: successive reads on one editor with the application changing the terminal
+    settings (and the editor's configuration) between them.**  `session` runs a list of steps; before
+    each read the application may install settings of its own with `tcsetattr` (`Step.app`), each
+    read has its own configuration and script.  For every such list in which no read ends by a
+    hang-up, from every connected terminal:
+    * every single read leaves exactly the settings it found when it started (NOT those of the
+      first read, NOT those of the previous one — nothing is cached across reads);
+    * hence the settings at the end are the ones the application installed last (`lastSet`);
+    * the terminal is still connected, and the raw flag is clear if it was clear at the start;
+    * the paste switches written during the whole session are, read by read, `ON (OFF ON)^n OFF`
+      (n = suspends of that read) for reads with bracketed paste in effect and nothing otherwise. -/
+theorem C16_session (steps : List Step) (hx : ∀ s ∈ steps, s.sc.exit ≠ .hangup) :
+    ∀ t : Term, t.connected = true →
+      (∀ p ∈ (session steps t).1, p.2 = p.1) ∧
+      (session steps t).1.length = steps.length ∧
+      (session steps t).2.termios = lastSet steps t.termios ∧
+      (session steps t).2.connected = true ∧
+      (t.rawFlag = false → (session steps t).2.rawFlag = false) ∧
+      ∃ X, (session steps t).2.log = t.log ++ X ∧ switches X = (steps.map pasteBlock).flatten := by
+  induction steps with
+  | nil => intro t hc; exact ⟨by simp [session], rfl, rfl, hc, id, [], by simp [session], rfl⟩
+  | cons s rest ih =>
+    intro t hc
+    obtain ⟨hac, hat, A, hA, hsA⟩ := appSet_connected s.app t hc
+    obtain ⟨h1t, h1c, h1r, X, hX, hsX⟩ :=
+      C16_read_closed_form s.cfg s.sc (appSet s.app t) hac (hx s (by simp))
+    obtain ⟨i1, i2, i3, i4, i5, Y, hY, hsY⟩ :=
+      ih (fun s' hs' => hx s' (by simp [hs'])) (readlineWith s.cfg s.sc (appSet s.app t)).2 h1c
+    simp only [session]
+    refine ⟨?_, ?_, ?_, i4, fun _ => i5 h1r, A ++ X ++ Y, ?_, ?_⟩
+    · intro p hp
+      rcases List.mem_cons.mp hp with rfl | hp
+      · exact h1t
+      · exact i1 p hp
+    · simp [i2]
+    · rw [i3, h1t, hat]; rfl
+    · rw [hY, hX, hA]; simp [List.append_assoc]
+    · rw [switches_append, switches_append, hsA, hsX, hsY]
+      simp [pasteBlock]
+
+/-- non-vacuity / illustration: cooked terminal, a read; the application switches echo off and
+    changes VEOF, a read with another configuration ending in a helper panic; both reads give back
+    what they found, the second one the application's settings. -/
+example :
+    let tm : Termios := { iflag := 0x500, oflag := 0x5, cflag := 0xbf, lflag := 0x8a3b, line := 0,
+                          cc := [3, 28, 127, 21, 4, 0, 1, 0, 17, 19, 26], ispeed := 15, ospeed := 15 }
+    let tm2 : Termios := { tm with lflag := 0x8a33, cc := [3, 28, 127, 21, 9, 0, 1, 0, 17, 19, 26] }
+    let r := session
+      [{ cfg := { enableSignals := false, bracketedPaste := true }, sc := { suspends := [], exit := .line } },
+       { app := some tm2, cfg := { enableSignals := true, bracketedPaste := false },
+         sc := { suspends := [{}], exit := .helperPanic 1 } }] (Term.fresh tm)
+    r.1 = [(tm, tm), (tm2, tm2)] ∧ r.2.termios = tm2 ∧ switches r.2.log = [.pasteOn, .pasteOff] := by
+  decide
+
+/-- **Sessions, settings only** (the statement a user relies on): each read of a session returns
+    the terminal with the settings in force when that read began. -/
+theorem C16_session_each_read_restores (steps : List Step) (hx : ∀ s ∈ steps, s.sc.exit ≠ .hangup)
+    (t : Term) (hc : t.connected = true) :
+    (∀ p ∈ (session steps t).1, p.2 = p.1) ∧ (session steps t).2.termios = lastSet steps t.termios :=
+  ⟨(C16_session steps hx t hc).1, (C16_session steps hx t hc).2.2.1⟩
+
+/-- **Sessions, bracketed paste**: over a whole session (any exits but the hang-up, any number of
+    suspends, configuration changing between reads, application `tcsetattr`s in between) as many
+    paste-off switches are written as paste-on switches, one is written iff the other is, and if any
+    was written the last one is paste-off. -/
+theorem C16_session_paste_balanced (steps : List Step) (hx : ∀ s ∈ steps, s.sc.exit ≠ .hangup)
+    (t : Term) (hc : t.connected = true) :
+    ∃ X, (session steps t).2.log = t.log ++ X ∧
+      X.count Eff.pasteOn = X.count Eff.pasteOff ∧
+      (Eff.pasteOff ∈ X ↔ Eff.pasteOn ∈ X) ∧
+      (switches X = [] ∨ (switches X).getLast? = some Eff.pasteOff) := by
+  obtain ⟨_, _, _, _, _, X, hX, hs⟩ := C16_session steps hx t hc
+  have hcnt : ∀ e, (e = Eff.pasteOn ∨ e = Eff.pasteOff) → X.count e = (switches X).count e := by
+    intro e he
+    rw [switches, List.count_filter]
+    rcases he with rfl | rfl <;> rfl
+  have hbal := blocks_balanced steps
+  have hlast := blocks_last steps
+  have h1 : X.count Eff.pasteOn = X.count Eff.pasteOff := by
+    rw [hcnt _ (Or.inl rfl), hcnt _ (Or.inr rfl), hs, hbal]
+  refine ⟨X, hX, h1, ?_, hs ▸ hlast⟩
+  rw [← List.count_pos_iff, ← List.count_pos_iff, h1]
+
+/-- **The restore neither swallows nor alters the outcome of the read.**  On a connected terminal,
+    for every configuration, every number of suspend/resume round trips and every exit kind: the
+    read returns what `readline_edit` ended with (Enter → the line, C-d → `Eof`, C-c → `Interrupted`,
+    undecodable input → `InvalidData`, I/O error → `Io`, helper/validator error → that error), a
+    helper panic goes on unwinding after the guard has run, and the only substitution is the
+    documented one: `Err` from `add_history_entry` under `auto_add_history` replaces an accepted line.
+    Together with `C16_restore`: the caller sees the same result as without raw mode handling, and
+    the terminal as it was. -/
+theorem C16_outcome_preserved (cfg : Cfg) (sc : Script) (t : Term) (hc : t.connected = true) :
+    (readlineWith cfg sc t).1 =
+      match exitFlow sc.exit with
+      | .unwind => .unwind
+      | .ret u => if cfg.autoAddHistory && u == .line && cfg.historyAddFails then .ret .historyErr else .ret u := by
+  have hf := readlineEdit_flow cfg t.termios sc.suspends sc.exit (afterEnable cfg t) rfl
+  unfold readlineWith
+  rw [enableRaw_eq cfg t hc]
+  simp only
+  rw [show modeOf cfg t = { termios := NixTermios.ofLibc t.termios, ttyOut := cfg.paste } from rfl]
+  generalize readlineEdit cfg _ sc.suspends sc.exit (afterEnable cfg t) = r at hf
+  obtain ⟨f, t2⟩ := r
+  simp only at hf
+  subst hf
+  cases exitFlow sc.exit with
+  | unwind => rfl
+  | ret u => simp only; split <;> simp_all
+
+/-- a helper panic at any call, after any number of suspends, from any connected terminal: the
+    panic propagates to the caller AND the settings are the ones found -/
+theorem C16_panic_propagates_and_restores (cfg : Cfg) (ss : List Suspend) (k : Nat) (t : Term)
+    (hc : t.connected = true) :
+    (readlineWith cfg { suspends := ss, exit := .helperPanic k } t).1 = .unwind ∧
+    (readlineWith cfg { suspends := ss, exit := .helperPanic k } t).2.termios = t.termios :=
+  ⟨by rw [C16_outcome_preserved cfg _ t hc]; rfl, C16_restore cfg _ t hc (by simp)⟩
+
+/-- **Ctrl-Z is an exit too: while the process is stopped the shell has the terminal as it was
+    found.**  Let `mode` be what `enable_raw_mode` returned at the start of the read on settings
+    `t0.termios`.  Whenever the Suspend branch runs — from any connected state `t` the read may be
+    in, i.e. at every stop of every sequence of suspends — the state `tstop` in which the process is
+    stopped has exactly the settings found before the read, the raw flag cleared, and (if paste mode
+    had been switched on) a paste-off as the last thing written; the resume then is a fresh
+    `enable_raw_mode` on whatever the shell left (`s.env`), whose new saved mode is discarded, so the
+    guard still holds the settings from before the read. -/
+theorem C16_suspend_gives_back (cfg : Cfg) (t0 t1 : Term) (mode : Mode)
+    (he : enableRaw cfg t0 = (some mode, t1)) (s : Suspend) (t : Term) (hc : t.connected = true) :
+    ∃ tstop, disableRaw mode cfg.writeOk t = (true, tstop) ∧
+      tstop.termios = t0.termios ∧ tstop.rawFlag = false ∧ tstop.connected = true ∧
+      (Eff.pasteOn ∈ t1.log.drop t0.log.length → tstop.log.getLast? = some Eff.pasteOff) ∧
+      (suspendResume cfg mode s t).2 =
+        (enableRaw cfg (match s.env with | some v => { tstop with termios := v } | none => tstop)).2 := by
+  cases hc0 : t0.connected
+  · rw [enableRaw_disconnected cfg t0 hc0] at he; simp at he
+  · rw [enableRaw_eq cfg t0 hc0] at he
+    injection he with hm ht1
+    injection hm with hm
+    subst hm ht1
+    have hw : (modeOf cfg t0).ttyOut = true → cfg.writeOk = true := by simp [modeOf, Cfg.paste]
+    refine ⟨_, disableRaw_eq _ _ t hc hw, rfl, rfl, rfl, ?_, ?_⟩
+    · cases hp : cfg.paste <;> simp [afterEnable, modeOf, hp]
+    · unfold suspendResume
+      rw [disableRaw_eq _ _ t hc hw]
+      cases he : s.env <;> simp [enableRaw_eq]
